@@ -18,6 +18,7 @@ package main
 
 import (
 	"context"
+	"encoding/json"
 	"errors"
 	"fmt"
 	"math/rand"
@@ -104,6 +105,7 @@ type lockDir struct {
 	out      string // granted | refused | error
 	conflict bool   // a competitor commits into the same node while this call is in flight
 	j        int    // which key (after sorting) the foreign owner holds
+	compAdd  int    // >0: the competitor ADDS this key (one the transaction under test adds too) instead of updating key 10
 }
 type boolDir struct {
 	dt int64
@@ -118,6 +120,13 @@ type plan struct {
 	sectors []boolDir // v = busy
 	handles []boolDir // v = granted
 	sectorForever *boolDir // when the list is used up: every further attempt in the body answers this
+
+	// item lock records: what other transactions do
+	foreign  map[int]int // store key -> action (actGet/actUpdate) of a record another transaction holds before the commit
+	dropAt   int         // the foreign records are deleted (their owners finished) at the entry of this Lock decision; -1 never
+	raceCall int         // which itemActionTracker.lock call is disturbed (0 = the one before the loop); -1 none
+	hasDrop  bool
+	raceKind string      // "overwrite": another writer's record lands on the first key between write and verify; "readerr": the verifying read fails
 }
 
 type obs struct {
@@ -125,7 +134,10 @@ type obs struct {
 	partial bool
 	nkeys   int
 	clock   int64
+	items   string // item lock records and tracker entries (see itemsState)
 }
+
+type envLine struct{ line, items string }
 
 type event struct {
 	kind    string // lock islocked duallock sector handle | derived: refetch body fail
@@ -134,6 +146,7 @@ type event struct {
 	rec     bool
 	pre     obs
 	derived bool
+	env     []envLine // other transactions' actions applied at the entry of this call (after pre was observed)
 }
 
 type caseRun struct {
@@ -160,6 +173,20 @@ type caseRun struct {
 	busySectors bool // measured mode: every sector-lock attempt inside the loop body is answered "busy"
 	mu          sync.Mutex
 	pending     [][3]string
+
+	// item lock records
+	itemKeys  []int                  // store keys of the tracked items, ascending: item index = position
+	itemID    []sop.UUID             // item index -> item id
+	ownLids   map[sop.UUID]bool      // every LockID the transaction's tracker ever carried or wrote
+	written   map[string]bool        // lock record keys the transaction wrote (SetStructs inside itemActionTracker.lock)
+	planted   map[int]sop.UUID       // item index -> LockID of the record the harness planted for "another transaction"
+	lockCalls int                    // itemActionTracker.lock calls begun
+	afterSet  bool                   // inside a lock call, after its SetStructs
+	racedCall bool                   // the current lock call is the disturbed one
+	setOrder  []int                  // item indexes in the key order of the disturbed call's SetStructs (= its verify order)
+	window    string                 // the model's window of the disturbed call
+	preTail   string                 // items state at the entry of checkTrackedItems (end of phase 1)
+	hasTail   bool
 }
 
 // fail defers an oracle failure until the case's op lines are written (so the replay carries the input).
@@ -215,6 +242,9 @@ func (h *caseRun) observe() obs {
 	}
 	o.held = n > 0 && n == len(ks)
 	o.partial = n > 0 && n < len(ks)
+	if h.ownLids != nil {
+		o.items = h.itemsState()
+	}
 	return o
 }
 
@@ -257,14 +287,18 @@ func (d *deco) Lock(ctx context.Context, dur time.Duration, ks []*sop.LockKey) (
 			fmt.Sprintf("attempt=%d keys=%d", h.il, pre.nkeys))
 	}
 	h.clock.Advance(dir.dt)
+	var env []envLine
+	if h.ownLids != nil && h.pl.dropAt == h.il-1 {
+		env = h.dropForeign(true) // the other transactions finish
+	}
 	if dir.conflict {
 		h.active = false
-		if err := h.competitor(); err != nil && h.compErr == nil {
+		if err := h.competitor(dir.compAdd); err != nil && h.compErr == nil {
 			h.compErr = err
 		}
 		h.active = true
 	}
-	ev := &event{kind: "lock", dt: dir.dt, pre: pre}
+	ev := &event{kind: "lock", dt: dir.dt, pre: pre, env: env}
 	h.events = append(h.events, ev)
 	switch dir.out {
 	case "error":
@@ -488,14 +522,29 @@ func setup(dir string, raw sop.L2Cache, slot, n int) error {
 }
 
 type txnOps struct {
+	rd  []int // keys to read (tracked get)
 	upd []int // keys to update
+	rm  []int // keys to remove
 	add []int // keys to add
 }
 
 func applyOps(ctx context.Context, b btree.BtreeInterface[int, string], ops txnOps, tag string) error {
+	for _, k := range ops.rd {
+		if ok, err := b.Find(ctx, k, false); err != nil || !ok {
+			return fmt.Errorf("find %d: %v %v", k, ok, err)
+		}
+		if _, err := b.GetCurrentValue(ctx); err != nil {
+			return fmt.Errorf("read %d: %v", k, err)
+		}
+	}
 	for _, k := range ops.upd {
 		if ok, err := b.Update(ctx, k, tag); err != nil || !ok {
 			return fmt.Errorf("update %d: %v %v", k, ok, err)
+		}
+	}
+	for _, k := range ops.rm {
+		if ok, err := b.Remove(ctx, k); err != nil || !ok {
+			return fmt.Errorf("remove %d: %v %v", k, ok, err)
 		}
 	}
 	for _, k := range ops.add {
@@ -506,7 +555,7 @@ func applyOps(ctx context.Context, b btree.BtreeInterface[int, string], ops txnO
 	return nil
 }
 
-func (h *caseRun) competitor() error {
+func (h *caseRun) competitor(addKey int) error {
 	h.compN++
 	ctx := context.Background()
 	env := &txk.Env{Dir: h.dir, HashMod: 64, L2: h.raw, Canon: h.env.Canon}
@@ -521,6 +570,14 @@ func (h *caseRun) competitor() error {
 	if err != nil {
 		return err
 	}
+	if addKey > 0 {
+		// the competitor adds a key the transaction under test adds too (added items carry no lock record)
+		if ok, err := b.Add(ctx, addKey, fmt.Sprintf("comp%d", h.compN)); err != nil || !ok {
+			t.T.Rollback(ctx)
+			return fmt.Errorf("competitor add: %v %v", ok, err)
+		}
+		return t.T.Commit(ctx)
+	}
 	// a key next to the first key the transaction under test updates: same leaf, different item
 	if ok, err := b.Update(ctx, 10, fmt.Sprintf("comp%d", h.compN)); err != nil || !ok {
 		t.T.Rollback(ctx)
@@ -529,7 +586,8 @@ func (h *caseRun) competitor() error {
 	return t.T.Commit(ctx)
 }
 
-func followUp(dir string, raw sop.L2Cache, ops txnOps) error {
+func followUp(dir string, raw sop.L2Cache, upd []int) error {
+	ops := txnOps{upd: upd}
 	ctx := context.Background()
 	env := &txk.Env{Dir: dir, HashMod: 64, L2: raw, Canon: txk.NewCanon()}
 	t, err := env.NewTxn(ctx, sop.ForWriting, 15*time.Minute, nil)
@@ -612,6 +670,12 @@ func runLoopCase(s *hx.Session, sc scen) error {
 		return fmt.Errorf("setup: %w", err)
 	}
 	h := &caseRun{s: s, clock: clk, raw: raw, dir: dir, pl: sc.pl, maxTime: sc.maxTime, dlMs: sc.dlMs, foreign: sop.NewUUID()}
+	if sc.pl.raceKind == "" {
+		h.pl.raceCall = -1
+	}
+	if !sc.pl.hasDrop {
+		h.pl.dropAt = -1
+	}
 	env := &txk.Env{Dir: dir, HashMod: 64, L2: &deco{L2Cache: raw, h: h}, Canon: txk.NewCanon()}
 	h.env = env
 	var ctx context.Context = context.Background()
@@ -634,6 +698,9 @@ func runLoopCase(s *hx.Session, sc scen) error {
 	if err := applyOps(context.Background(), b, sc.ops, "T"); err != nil {
 		return err
 	}
+	h.registerItems()
+	trkBefore := common.VerifC15TrackedItems(h.txn)
+	cache0 := h.plantForeign()
 	h.active = true
 	cerr := t.T.Commit(ctx)
 	h.active = false
@@ -643,8 +710,10 @@ func runLoopCase(s *hx.Session, sc scen) error {
 	}
 	final := h.observe()
 	endClock := final.clock
+	afterItems := final.items
 	if h.exitObs != nil {
 		final = *h.exitObs
+		final.items = afterItems // the records are released after the node keys: take them from the end state
 	}
 
 	// ---- translate the recorded decisions into the model's script ----
@@ -654,10 +723,12 @@ func runLoopCase(s *hx.Session, sc scen) error {
 		post obs
 		next string
 		idx  int
+		hasPost bool
 	}
 	var out []*tev
 	stage := "head" // head afterLock refetch body done
 	need := false
+	nRefetch := 0
 	push := func(line string, ev *event) { out = append(out, &tev{line: line, ev: ev}) }
 	recIdx := map[*tev]int{}
 	_ = recIdx
@@ -691,6 +762,10 @@ func runLoopCase(s *hx.Session, sc scen) error {
 			}
 		case "refetch":
 			push(fmt.Sprintf("refetch %d %s", e.dt, e.out), e)
+			nRefetch++
+			if h.window != "" && nRefetch == h.pl.raceCall {
+				out[len(out)-1].line += " " + h.window
+			}
 		case "duallock":
 			push(fmt.Sprintf("duallock %d %s", e.dt, e.out), e)
 			if e.out == "1" {
@@ -719,7 +794,34 @@ func runLoopCase(s *hx.Session, sc scen) error {
 		case !sectorCtx:
 			push("fail 0", &event{kind: "fail", derived: true})
 		}
-	case "refetch", "afterLock":
+	case "refetch":
+		if fc == "error" {
+			msg := cerr.Error()
+			switch {
+			case strings.Contains(msg, "lock(item:") || strings.Contains(msg, errInjected.Error()):
+				// the replay went through; the lockTrackedItems after it failed (no DualLock was reached)
+				w := "-"
+				if h.window != "" {
+					w = h.window
+				}
+				push(fmt.Sprintf("refetch 0 1 %s", w), &event{kind: "refetch", out: "1", derived: true, pre: final})
+			default:
+				// refetchAndMerge itself failed: what it had re-registered by then is what the tracker holds now
+				var rs []string
+				for _, e := range common.VerifC15TrackedItems(h.txn) {
+					if i := h.idxOfKey(e.Key); i >= 0 {
+						rs = append(rs, fmt.Sprint(i))
+					}
+				}
+				l := "-"
+				if len(rs) > 0 {
+					l = strings.Join(rs, ",")
+				}
+				push("refetchfail 0 "+l, &event{kind: "refetchfail", derived: true})
+				s.Hit(fmt.Sprintf("refetch_failed_after_%d_of_%d", len(rs), len(trkBefore)))
+			}
+		}
+	case "afterLock":
 		if fc == "error" {
 			push("fail 0", &event{kind: "fail", derived: true})
 		}
@@ -731,6 +833,7 @@ func runLoopCase(s *hx.Session, sc scen) error {
 			if !out[j].ev.derived || out[j].ev.kind == "refetch" {
 				out[j-0].idx = j
 				out[i].post = out[j].ev.pre
+				out[i].hasPost = true
 				break
 			}
 		}
@@ -749,7 +852,11 @@ func runLoopCase(s *hx.Session, sc scen) error {
 	if len(h.events) > 0 {
 		hasKeys = h.events[0].pre.nkeys > 0
 	}
-	s.BeginCase(fmt.Sprintf("loop %d %s 0 %s", sc.maxTime, hdl, b01(hasKeys)))
+	w0 := "-"
+	if h.window != "" && h.pl.raceCall == 0 {
+		w0 = h.window
+	}
+	s.BeginCase(fmt.Sprintf("loop %d %s 0 %s %s %s %s", sc.maxTime, hdl, b01(hasKeys), h.trackerSpec(trkBefore), cache0, w0))
 	iter := 0
 	nx := kindOf(0)
 	if nx == "lock" {
@@ -759,14 +866,17 @@ func runLoopCase(s *hx.Session, sc scen) error {
 	if len(h.events) > 0 {
 		first = h.events[0].pre
 	}
-	s.Op("start", fmt.Sprintf("next=%s iter=%d held=%s clock=%d", nx, iter, b01(first.held), first.clock))
+	s.Op("start", fmt.Sprintf("next=%s iter=%d held=%s clock=%d %s", nx, iter, b01(first.held), first.clock, first.items))
 	retry := 0
 	need = false
 	for i, t := range out {
 		e := t.ev
 		nk := kindOf(i + 1)
 		next := nk
-		if nk == "fail" { // the model names the stage it is in, not the error that ends it
+		for _, el := range e.env {
+			s.Op(el.line, el.items)
+		}
+		if nk == "fail" || nk == "refetchfail" { // the model names the stage it is in, not the error that ends it
 			switch {
 			case e.kind == "islocked" && e.out == "1" && need:
 				next = "refetch"
@@ -810,13 +920,32 @@ func runLoopCase(s *hx.Session, sc scen) error {
 		if next == "body" || next == "refetch" || next == "exit:success" || e.kind == "refetch" {
 			held = "-"
 		}
-		s.Op(t.line, fmt.Sprintf("next=%s iter=%d held=%s clock=%d", next, iter, held, t.post.clock))
+		// the records after this decision: observed at the entry of the next decorated call; at the end of phase 1
+		// (entry of checkTrackedItems) when only derived events follow in a commit that succeeds; after Commit
+		// returned when the decision ends the commit; not observable otherwise (`~`)
+		items, line := t.post.items, t.line
+		switch {
+		case next == "exit:success" || (!t.hasPost && fc == "success" && !strings.HasPrefix(next, "exit:")):
+			if h.hasTail {
+				items = h.preTail
+			} else { // checkTrackedItems read nothing (only added items): no observation point
+				items, line = "items=~", line+" ~"
+			}
+		case strings.HasPrefix(next, "exit:"):
+			items = afterItems
+		case i+1 >= len(out) || out[i+1].ev.derived:
+			items, line = "items=~", line+" ~"
+		}
+		s.Op(line, fmt.Sprintf("next=%s iter=%d held=%s clock=%d %s", next, iter, held, t.post.clock, items))
 		// direct oracle (negation of Statement_C15): the code goes on waiting for a sector lock although the budget is gone
 		if next == "wait" && h.budgetExceeded(t.post.clock) {
 			s.Fail("C15/sector-lock-wait-ignores-maxtime",
 				"a registry sector-lock wait continues after the transaction's budget (maxTime / context deadline) is exhausted",
 				fmt.Sprintf("scenario=%s maxTime=%dms deadline=%s waited until clock=%dms; Commit returned at clock=%dms (%s)", sc.name, sc.maxTime, hdl, t.post.clock, endClock, fc))
 		}
+	}
+	if fc == "success" {
+		s.Op("tail ok", afterItems) // the rest of phase 1 (checkTrackedItems) and phase 2
 	}
 	s.Op("final", fmt.Sprintf("exit=%s iter=%d retry=%d", fc, iter, retry))
 
@@ -829,7 +958,8 @@ func runLoopCase(s *hx.Session, sc scen) error {
 	if len(h.events) > 1 {
 		s.Nontrivial()
 	}
-	selfConflict := cerr != nil && strings.Contains(cerr.Error(), "call detected conflict") && h.compN == 0
+	selfConflict := cerr != nil && strings.Contains(cerr.Error(), "call detected conflict") && h.compN == 0 &&
+		len(sc.pl.foreign) == 0 && sc.pl.raceKind == "" // nobody else's record was ever there
 	if selfConflict {
 		// no other transaction exists in this case: the "conflict" is with the transaction's own item lock records
 		s.Fail("C15/refused-lock-retry-self-conflict",
@@ -845,29 +975,66 @@ func runLoopCase(s *hx.Session, sc scen) error {
 	if retry > 30 {
 		s.Fail("C15/retry-cap-exceeded", "more than 30 unsuccessful rounds in one commit (the property's retry cap)", fmt.Sprint(retry))
 	}
-	// give-up releases: nothing of the transaction's node keys stays locked, and a follow-up on the same keys commits
+	// no lock left behind: whatever the outcome, nothing of the transaction's node keys stays locked, none of its
+	// item lock records stays in the cache, and followers on the same items commit
 	after := h.observe()
-	if fc != "success" {
-		if after.held || after.partial {
-			s.Fail("C15/locks-held-after-giveup", "node locks are still held after Commit returned an error", fmt.Sprintf("%+v", after))
-		}
-		for _, le := range cache.VerifLockEntries(raw) {
-			if strings.HasPrefix(le.Key, "lock:") && len(le.Key) == 5+36 && le.Expiration.After(time.Now()) {
-				s.Fail("C15/locks-held-after-giveup", "a node lock entry is still live in the L2 cache after Commit returned an error", le.Key)
-			}
-		}
+	if after.held || after.partial {
+		s.Fail("C15/locks-held-after-giveup", "node locks are still held after Commit returned ("+fc+")", fmt.Sprintf("%+v", after))
 	}
+	leakSig := h.leftBehind(sc.name, fc, cerr)
+	if leakSig == "" {
+		s.Hit("no_record_left_after_" + fc)
+	}
+	h.dropForeign(false) // the other transactions of the case finish too
 	sop.Now = time.Now
-	if err := followUp(dir, raw, sc.ops); err != nil {
-		if selfConflict && strings.Contains(err.Error(), "call detected conflict") {
+	blocked := func(who string, err error) {
+		switch {
+		case selfConflict && strings.Contains(err.Error(), "call detected conflict"):
 			s.Fail("C15/item-lock-records-leak-after-self-conflict",
 				"the item lock records of a transaction that gave up after its refetch self-conflict stay in the L2 cache (rollback unlocks only records it believes it owns): a follow-up on the same items fails until their TTL (= the dead transaction's maxTime)",
 				err.Error())
-		} else {
-			s.Fail("C15/follow-up-blocked", "a follow-up transaction on the same keys could not commit after the transaction under test ended ("+fc+")", err.Error())
+		case leakSig != "" && strings.Contains(err.Error(), "call detected conflict"):
+			s.Fail(leakSig, "a follow-up transaction on "+who+" is refused by a lock record the finished transaction left behind ("+fc+")", err.Error())
+		default:
+			s.Fail("C15/follow-up-blocked", "a follow-up transaction on "+who+" could not commit after the transaction under test ended ("+fc+")", err.Error())
 		}
+	}
+	// (1) a writer of the items the transaction only READ
+	var readOnly []int
+	for _, k := range sc.ops.rd {
+		wr := false
+		for _, u := range append(append([]int{}, sc.ops.upd...), sc.ops.rm...) {
+			wr = wr || u == k
+		}
+		if !wr {
+			readOnly = append(readOnly, k)
+		}
+	}
+	if len(readOnly) > 0 {
+		if err := followUp(dir, raw, readOnly); err != nil {
+			blocked("the items it only read", err)
+		} else {
+			s.Hit("followup_on_read_items_ok_after_" + fc)
+		}
+	}
+	// (2) a writer of the items it wrote (the removed ones exist only if it did not commit)
+	wrote := append([]int{}, sc.ops.upd...)
+	if fc != "success" {
+		wrote = append(wrote, sc.ops.rm...)
+	}
+	if err := followUp(dir, raw, wrote); err != nil {
+		blocked("the items it wrote", err)
 	} else {
 		s.Hit("followup_ok_after_" + fc)
+	}
+	// the followers are transactions too
+	for _, de := range cache.VerifC15DataEntries(raw, lockPrefix) {
+		if de.Expiration.IsZero() || de.Expiration.After(time.Now()) {
+			var r lockRec
+			if json.Unmarshal(de.Data, &r) == nil && !h.ownLids[r.LockID] {
+				s.Fail("C15/follower-lock-record-left-behind", "a follow-up transaction left a lock record in the L2 cache after it ended", de.Key)
+			}
+		}
 	}
 	return nil
 }
@@ -946,7 +1113,79 @@ func genScen(p *hx.Prng, i int) scen {
 		}
 		sc.pl.handles = append(sc.pl.handles, boolDir{dt: 0, v: p.Chance(3, 4)})
 	}
+	genItems(p, &sc)
 	return sc
+}
+
+// genItems varies WHAT the transaction tracks (read / updated / removed / added items and mixes) and what other
+// transactions do to the item lock records, on top of the loop scenario chosen above.
+func genItems(p *hx.Prng, sc *scen) {
+	if sc.items == 0 {
+		return // empty store: only adds
+	}
+	readKeys := []int{20, 60, 110, 160, 180}
+	if p.Chance(2, 3) {
+		n := 1 + p.Intn(3)
+		o := p.Intn(len(readKeys))
+		for j := 0; j < n; j++ {
+			sc.ops.rd = append(sc.ops.rd, readKeys[(o+j)%len(readKeys)])
+		}
+		if p.Chance(1, 5) && len(sc.ops.upd) > 0 {
+			sc.ops.rd = append(sc.ops.rd, sc.ops.upd[0]) // read, then updated: one entry, action update
+		}
+	}
+	if p.Chance(1, 4) {
+		sc.ops.rm = append(sc.ops.rm, []int{30, 70, 120}[p.Intn(3)])
+		if p.Chance(1, 3) {
+			sc.ops.rm = append(sc.ops.rm, 130)
+		}
+	}
+	if p.Chance(1, 4) && len(sc.ops.add) == 0 {
+		sc.ops.add = []int{205 + p.Intn(3)}
+	}
+	if len(sc.ops.rd) > 0 && p.Chance(1, 8) && !strings.HasPrefix(sc.name, "sector") {
+		sc.ops.upd = nil // a writer-mode transaction that only read (and maybe added)
+		sc.name += "+readonly"
+	}
+	// other readers hold (compatible) records on some of the items the transaction reads
+	if len(sc.ops.rd) > 0 && p.Chance(1, 3) {
+		sc.pl.foreign = map[int]int{}
+		for _, k := range sc.ops.rd {
+			if p.Chance(1, 2) {
+				sc.pl.foreign[k] = actGet
+			}
+		}
+		if p.Chance(2, 3) {
+			sc.pl.hasDrop, sc.pl.dropAt = true, p.Intn(3)
+		}
+		sc.name += "+readers"
+	}
+	// a writer holds a record on one of the transaction's items: the commit is refused before the loop
+	if p.Chance(1, 25) {
+		all := append(append(append([]int{}, sc.ops.rd...), sc.ops.upd...), sc.ops.rm...)
+		if len(all) > 0 {
+			if sc.pl.foreign == nil {
+				sc.pl.foreign = map[int]int{}
+			}
+			sc.pl.foreign[all[p.Intn(len(all))]] = actUpdate
+			sc.name += "+writer"
+		}
+	}
+	// one disturbed itemActionTracker.lock call (C15-F4): the first one, or the one after the first conflict round
+	if p.Chance(1, 12) {
+		sc.pl.raceKind = []string{"overwrite", "readerr"}[p.Intn(2)]
+		sc.pl.raceCall = 0
+		if strings.HasPrefix(sc.name, "conflicts") && p.Chance(1, 2) {
+			sc.pl.raceCall = 1
+		}
+		sc.name += "+" + sc.pl.raceKind
+	}
+	// the competitor adds a key this transaction adds too, while its node lock is refused: the replay of the add fails (C15-F5)
+	if strings.HasPrefix(sc.name, "refusals") && len(sc.pl.locks) > 0 && p.Chance(1, 6) {
+		sc.ops.add = []int{209}
+		sc.pl.locks[0].conflict, sc.pl.locks[0].compAdd = true, 209
+		sc.name += "+dupadd"
+	}
 }
 
 // directed corpus; the first is the Lean witness of C15_counterexample (finding C15-F1)
@@ -968,7 +1207,31 @@ func corpus() []scen {
 	ctxd.pl.locks = []lockDir{{dt: 999, out: "refused", j: 0}, {dt: 1, out: "refused", j: 1}}
 	wctx := scen{name: "sector-ctx", items: 20, slot: 4, maxTime: 2000, dlMs: 100000, ops: txnOps{upd: []int{0}, add: []int{200, 201, 202, 203, 204}}}
 	wctx.pl.sectorForever = &boolDir{dt: 60000, v: true}
-	return []scen{w, w2, clean, late, edge, ctxd, wctx, cap30}
+	// item lock records
+	// the shape of the seeded blind spot: one item only read, one updated, the node lock refused once
+	rdRef := scen{name: "read+update-refused-once", items: 20, slot: 4, maxTime: 900000, dlMs: -1, ops: txnOps{rd: []int{20}, upd: []int{0}}}
+	rdRef.pl.locks = []lockDir{{dt: 10, out: "refused", j: 0}}
+	rdGive := scen{name: "read+update-refused-then-error", items: 20, slot: 4, maxTime: 900000, dlMs: -1, ops: txnOps{rd: []int{20, 110}, upd: []int{0}, rm: []int{70}}}
+	rdGive.pl.locks = []lockDir{{dt: 10, out: "refused", j: 0}, {dt: 0, out: "granted"}, {dt: 0, out: "error"}}
+	rdGive.pl.duals = []boolDir{{dt: 0, v: false, j: 0}}
+	rdTO := scen{name: "read+remove-refused-timeout", items: 20, slot: 4, maxTime: 2000, dlMs: -1, ops: txnOps{rd: []int{60}, rm: []int{30}, upd: []int{100}}}
+	rdTO.pl.locks = []lockDir{{dt: 1500, out: "refused", j: 0}, {dt: 0, out: "granted"}}
+	rdTO.pl.duals = []boolDir{{dt: 600, v: false, j: 1}}
+	rdConf := scen{name: "read+update-conflict-round", items: 20, slot: 4, maxTime: 900000, dlMs: -1, ops: txnOps{rd: []int{20, 160}, upd: []int{0, 100}}}
+	rdConf.pl.locks = []lockDir{{out: "granted", conflict: true}, {dt: 5, out: "refused", j: 1}}
+	readers := scen{name: "readers-finish-during-refusal", items: 20, slot: 4, maxTime: 900000, dlMs: -1, ops: txnOps{rd: []int{20, 60}, upd: []int{0}}}
+	readers.pl.locks = []lockDir{{dt: 10, out: "refused", j: 0}, {dt: 10, out: "refused", j: 0}}
+	readers.pl.foreign = map[int]int{20: actGet, 60: actGet}
+	readers.pl.hasDrop, readers.pl.dropAt = true, 1
+	// Lean: C15_items_counterexample_lock_early_return (finding C15-F4)
+	f4 := scen{name: "F4-witness-overwrite", items: 20, slot: 4, maxTime: 900000, dlMs: -1, ops: txnOps{upd: []int{0, 50, 100}}}
+	f4.pl.raceKind, f4.pl.raceCall = "overwrite", 0
+	f4b := scen{name: "F4-witness-readerr", items: 20, slot: 4, maxTime: 900000, dlMs: -1, ops: txnOps{rd: []int{20}, upd: []int{0}}}
+	f4b.pl.raceKind, f4b.pl.raceCall = "readerr", 0
+	// Lean: C15_items_counterexample_failed_refetch (finding C15-F5); which records stay depends on the replay order
+	f5 := scen{name: "F5-witness-dupadd", items: 20, slot: 4, maxTime: 900000, dlMs: -1, ops: txnOps{rd: []int{20, 110}, upd: []int{0, 100}, add: []int{209}}}
+	f5.pl.locks = []lockDir{{dt: 10, out: "refused", j: 0, conflict: true, compAdd: 209}}
+	return []scen{w, w2, clean, late, edge, ctxd, wctx, cap30, rdRef, rdGive, rdTO, rdConf, readers, f4, f4b, f5, f5, f5}
 }
 
 // ---------------------------------------------------------------------------------------------------------
